@@ -165,7 +165,7 @@ pub fn gen_sources(rng: &mut Rng, next: &mut u64, kmin: u64, kmax: u64, max_tile
 			coords.push((z, (x + 1).min(max), y));
 		}
 		let style = pick_style_vt(rng);
-		let mut spec = SrcSpec { fmt: 1, comp, kind, tiles: assign_ids_style(rng, &coords, next, style) };
+		let mut spec = SrcSpec { fmt: 1, comp, kind, tiles: assign_ids_style(rng, &coords, next, style), fail: vec![] };
 		// a large, highly repetitive tile (brotli ratio far above 1032:1) – mostly in brotli sources
 		if (comp == 2 && rng.chance(2, 3)) || rng.chance(1, 12) {
 			let k = *rng.pick(&spec.tiles.keys().copied().collect::<Vec<_>>());
@@ -281,7 +281,7 @@ pub fn run(args: &Args) {
 	let mut next: u64 = 0;
 
 	// ---------------- Part A: container readers and converter wrappers
-	let n_a = args.n(6, 31);
+	let n_a = args.n(8, 33);
 	for wi in 0..n_a {
 		let dense = wi == 0;
 		// world 1: "ocean" – every tile of levels 0..3 present, all byte-identical (< 1000 bytes)
@@ -290,7 +290,10 @@ pub fn run(args: &Args) {
 		// sub-boxes that skip tiles make gaps > 32 KiB between consecutive requested tiles → chunk splits.
 		// thorough, world 6: 70 tiles of 1 MiB in one block (> 64 MiB → split by size)
 		let big = wi == 2;
-		let huge = args.thorough() && wi == 6;
+		let huge = args.thorough() && wi == 8;
+		// world 6: empty (0 bytes) payloads, stored uncompressed (PNG so that mbtiles takes part); world 7: fault injection
+		let empties = wi == 6;
+		let faulty = wi == 7 || (wi > 8 && wi % 4 == 1);
 		let coords: Vec<Key> = if big {
 			let mut v = vec![];
 			for y in 5..9u32 {
@@ -336,9 +339,9 @@ pub fn run(args: &Args) {
 				gen_coords(&mut rng, 90, gaps)
 			}
 		};
-		let (fmt, comp) = if dense || big { (1, 1) } else if ocean || huge { (1, 0) } else { pick_fmt_comp(&mut rng) };
+		let (fmt, comp) = if dense || big { (1, 1) } else if ocean || huge { (1, 0) } else if empties { (2, 0) } else { pick_fmt_comp(&mut rng) };
 		// payload identity pattern: see `assign_ids_style`
-		let style = if dense || big || huge { 0 } else if ocean { 1 } else if wi < 6 { [0, 1, 0, 4, 2, 5][wi] } else { [0, 0, 0, 1, 2, 2, 3, 4, 4, 5][rng.below(10) as usize] };
+		let style = if dense || big || huge { 0 } else if ocean { 1 } else if empties { 6 } else if wi < 6 { [0, 1, 0, 4, 2, 5][wi] } else { [0, 0, 0, 1, 2, 2, 3, 4, 4, 5, 6][rng.below(11) as usize] };
 		out.count(&format!("A_payload_style_{style}"));
 		let tiles = if big || huge {
 			// distinct large payloads: ids that are multiples of 37 (60 KB) resp. 1009 (1 MiB)
@@ -362,7 +365,21 @@ pub fn run(args: &Args) {
 			kinds = vec!["versatiles"];
 		}
 		for kind in kinds {
-			let spec = SrcSpec { fmt, comp, kind: kind.to_string(), tiles: tiles.clone() };
+			// fault injection: the lookup fails for 1-4 coordinates that have a tile and one that has none
+			let mut fail: Vec<Key> = vec![];
+			if faulty {
+				let keys: Vec<Key> = tiles.keys().copied().collect();
+				for _ in 0..rng.range(1, 4) {
+					fail.push(*rng.pick(&keys));
+				}
+				let k = *rng.pick(&keys);
+				let max = ((1u64 << k.0) - 1) as u32;
+				fail.push((k.0, (k.1 + 1).min(max), k.2));
+				fail.sort();
+				fail.dedup();
+				out.count("A_world_faulty");
+			}
+			let spec = SrcSpec { fmt, comp, kind: kind.to_string(), tiles: tiles.clone(), fail };
 			let specs = vec![spec];
 			let w = World::build(&rt, &scratch, &specs);
 			out.count(&format!("A_world_{kind}"));
@@ -420,6 +437,16 @@ pub fn run(args: &Args) {
 			if kind == "versatiles" || kind == "mbtiles" {
 				let cs = coords_arg(&mut rng, &specs, 4);
 				reader_line(&rt, &mut out, &mut id, &w, if kind == "versatiles" { "C02v" } else { "C02m" }, "G", &cs);
+			}
+			if faulty {
+				// the default stream under filters: errors stay dropped, nothing else is lost
+				for (z, present) in levels.iter().take(3) {
+					let boxes = gen_boxes(&mut rng, *z, present, 1, args.n(10, 20));
+					let zf = zoom_arg(&mut rng, &levels);
+					run_in_world(&rt, &mut out, &mut id, &w, "C02", "S", &format!("L0,{zf}"), &boxes_arg(&boxes));
+					run_in_world(&rt, &mut out, &mut id, &w, "C02", "S", "L0,Zn:n", &boxes_arg(&boxes));
+				}
+				run_in_world(&rt, &mut out, &mut id, &w, "C02", "G", "L0", &coords_arg(&mut rng, &specs, 2));
 			}
 			// converter wrappers: all four flag pairs
 			for flags in ["00", "10", "01", "11"] {
